@@ -289,23 +289,29 @@ PROPS = {
                 note="Trusted: numpy zeros / column assignment / row views / random.seed / random.shuffle contracts.",
                 technique="finite digit-map bijection lemma + permutation-row loop invariant; seeded determinism assumed, bounded spot check",
                 assumptions=["numpy's seeded global generator is deterministic (external)"]),
-    "C19": dict(title="Arc removal keeps both graph views in step", level="other", bounded=["C19"], design="8/C19",
-                proof=["dsw.spiderweb.remove_nasty_arc", "dsw.graphized.obtain_vertices", "lemma.shift_append", "lemma.mod_small", "lemma.ipow_mono"],
+    "C19": dict(title="Arc removal keeps both graph views in step", level="proof", bounded=["C19"], design="8/C19",
+                proof=["dsw.spiderweb.remove_nasty_arc", "dsw.graphized.calculate_intersection_score#shape-sign", "dsw.graphized.obtain_vertices",
+                       "lemma.shift_append", "lemma.mod_small", "lemma.ipow_mono"],
                 explanation="PROVED per call on the real remove_nasty_arc, for every order k <= 31, every accessor and every latter map describing the same graph "
                             "(the representation invariant lm_of(latter_map, accessor, k), which accessor_to_latter_map establishes - C14): if the call returns, "
                             "(1) exactly one accessor entry changed, it held an arc former -> latter (>= 0) and now holds -1, and that arc is the one reported; "
-                            "(2) no other entry changed; (3) its score is the maximum of the score table computed on the graph before the call (the table is the "
-                            "callee's result: max / where / unique / intersect1d / argmax contracts); (4) the latter map lost exactly that successor and the key "
-                            "when its list became empty: lm_of holds again on the handed-back pair - so the invariant is inductive and holds after every call "
-                            "of every history.  ASSUMED (bounded tier only): calculate_intersection_score returns a fresh non-negative table of the accessor's "
-                            "shape and modifies nothing; 'scores positive only on arcs' and the scoring scheme itself.  NOT COVERED by the proof: exceptions raised "
-                            "by the statistics computed after the update (reshape / Counter / argsort; those statements are opaque), which end the history.",
-                demoted=["intersection scores positive only on existing arcs / accessor's shape (calculate_intersection_score) - bounded B2",
+                            "(2) no other entry changed; (3) its score is the maximum of the score table of the graph before the call under the caller's own "
+                            "insertion / deletion flags (iscore: the table as an uninterpreted function of graph, order and flags; max / where / unique / "
+                            "intersect1d / argmax contracts); (4) the latter map lost exactly that successor and the key when its list became empty: lm_of "
+                            "holds again on the handed-back pair - so the invariant is inductive and holds after every call of every history.  PROVED on the "
+                            "real calculate_intersection_score (contract #shape-sign, six loops, for every latter map that describes an accessor): the table has "
+                            "the accessor's shape, every entry is >= 0, and an entry is positive only where the accessor has an arc; it stores into nothing but "
+                            "its own table.  DEFINITIONAL: 'the intersection score' is what that function returns; that it is a function of (graph, order, "
+                            "flags) only is the purity analysis of C20.  NOT COVERED by the proof: exceptions raised by the statistics computed after the "
+                            "update (reshape / Counter / argsort; those statements are opaque), which end the history; the numeric value of the scores "
+                            "(bounded tier: an independent set-based restatement of the scoring scheme).",
+                demoted=["numeric value of the scores against the set-based restatement - bounded B2 (not a clause of the property)",
                          "exceptions of the post-update statistics - bounded B2"],
-                claim="Mixed: the per-call effect of arc removal and the two-view invariant are deductive (all graphs, k <= 31); the score table itself is an "
-                      "assumed callee contract checked in the bounded tier.",
-                note="Trusted: numpy max/where(2-D)/unique/intersect1d/argmax/log contracts (conformance-checked in the thorough tier), dict model.",
-                technique="per-call contract with representation invariant consistent(accessor, latter_map) + bounded removal sequences"),
+                claim="Deductive for every clause of the statement: per-call effect, inductive two-view invariant, maximality under the call's flags, shape and "
+                      "sign of the score table (all graphs, k <= 31, all histories by induction).",
+                note="Trusted: numpy max/where(2-D)/unique/intersect1d/argmax/log/union1d contracts (conformance-checked in the thorough tier), dict model; "
+                     "obtain_leaf_vertices is used through an assumed contract (returns some array, modifies nothing).",
+                technique="per-call contract with representation invariant consistent(accessor, latter_map) + loop invariants on the score table + bounded removal sequences"),
     "C20": dict(title="Library calls are stateless and never modify their arguments", level="other", bounded=["C20"], design="8/C20",
                 proof=["frame:*", "dsw.spiderweb.create_random_shuffles#seed", "lemma.ipow_mono"],
                 explanation="STATIC FRAME PROOF over the real ASTs of EVERY function of dsw/operation.py, graphized.py, spiderweb.py (flow-sensitive may-alias "
